@@ -142,7 +142,7 @@ def gen():
         return {"fam": fam, "kind": kind, "entry": entry, "params": params, "var_params": var_params,
                 "c": draw(st.sampled_from([0.5, 1.0, 2.0])), "s": draw(st.sampled_from([0.5, 2.0, -1.5])), "a": draw(st.sampled_from([0.0, 1.0, -2.0])),
                 "vector": draw(st.booleans()), "role": draw(st.sampled_from(["param", "param", "obs", "plain"])), "per_obs": draw(st.booleans()),
-                "indirect": draw(st.booleans()),
+                "indirect": draw(st.booleans()), "copy": draw(st.sampled_from(["none", "none", "build_copy", "deepcopy"])),
                 "z": [draw(f32(-2, 2)) for _ in range(3)], "ts": [[draw(f32(-4, 4)) for _ in range(3)] for _ in range(3)],
                 "new_params": [draw(st.sampled_from([0.75, 1.25, 2.0])) for _ in range(3)]}
 
@@ -265,7 +265,12 @@ def build(c, transformed=True):
         gb.add(x)
         if t is not None:
             gb.add(t)
-    model = gb.build_model()
+    how = c.get("copy", "none")
+    model = gb.build_model(copy=(how == "build_copy"))
+    if how == "deepcopy":
+        import copy as _copy
+
+        model = _copy.deepcopy(model)      # every law below must hold in an independent copy of the model just as well
     extra["args"] = args
     extra["bvar"] = bvar
     return x, pvars, extra, model
@@ -353,7 +358,7 @@ def oracle(c):
                 fwd, inv, ljac = bij_maps(kind, args)
         model.update()
         check_at(f"assignment{k}:")
-    return {"nt": bool(nt), "cls": ["x64" if x64() else "f32", fam, kind, c["entry"], "indirect" if c.get("indirect") else "direct", "varparam" if c["var_params"] else "constparam", "vector" if c["vector"] else "scalar"]}
+    return {"nt": bool(nt), "cls": ["x64" if x64() else "f32", fam, kind, c["entry"], "indirect" if c.get("indirect") else "direct", "copy:" + c.get("copy", "none"), "varparam" if c["var_params"] else "constparam", "vector" if c["vector"] else "scalar"]}
 
 
 # ------------------------------------------------------------------------------ invalid uses
